@@ -612,8 +612,9 @@ extern const MPT_STRUCT(named_traits) *mpt_type_metatype_add(const char *name)
 			errno = EINVAL;
 			return 0;
 		}
-		/* metatype and interface names share a single lookup space */
-		if (mpt_named_traits(name, nlen - 1)) {
+		/* metatype and interface names share a single lookup space,
+		 * full name lookup also covers the reserved short names */
+		if (mpt_named_traits(name, -1)) {
 			errno = EINVAL;
 			return 0;
 		}
@@ -683,8 +684,9 @@ extern const MPT_STRUCT(named_traits) *mpt_type_interface_add(const char *name)
 			errno = EINVAL;
 			return 0;
 		}
-		/* metatype and interface names share a single lookup space */
-		if (mpt_named_traits(name, nlen - 1)) {
+		/* metatype and interface names share a single lookup space,
+		 * full name lookup also covers the reserved short names */
+		if (mpt_named_traits(name, -1)) {
 			errno = EINVAL;
 			return 0;
 		}
